@@ -1,6 +1,7 @@
 package checks
 
 import (
+	"encoding/json"
 	"fmt"
 	"go/token"
 	"strings"
@@ -319,8 +320,64 @@ func init() {
 				pcs = append(pcs, baseCase("c14-key-fidelity", schema, []any{doc}, strings.Join(set, " "), fmt.Sprint(req)))
 			}
 		}
+		// a declared type whose name is one the emitted method bodies use (Plain, the shadow type; also Raw, Value, Err)
+		// next to an object that has declared properties AND collects additional ones: the undeclared keys — among them
+		// keys named like the OTHER type's fields — must land in the map, the declared ones in their fields
+		for _, tn := range []string{"plain", "Plain", "raw", "value", "err", "plain_0"} {
+			for _, addl := range []any{M{"type": "string"}, true} {
+				for _, other := range []string{"struct", "enum"} {
+					od := M{"type": "object", "properties": M{"text": M{"type": "string"}, "name": M{"type": "string"}}}
+					bodyDoc := any(M{"text": "hello"})
+					if other == "enum" {
+						od = M{"type": "string", "enum": []any{"a", "b"}}
+						bodyDoc = "a"
+					}
+					schema := M{"type": "object",
+						"properties": M{"body": M{"$ref": "#/$defs/" + tn}, "labels": M{"$ref": "#/$defs/labels"}},
+						"$defs":      M{tn: od, "labels": M{"type": "object", "properties": M{"name": M{"type": "string"}, "owner": M{"type": "string"}}, "required": []any{"name"}, "additionalProperties": addl}}}
+					docs := []any{
+						M{"body": bodyDoc, "labels": M{"name": "N", "owner": "O", "team": "T", "text": "X"}},
+						M{"labels": M{"name": "N", "text": "X"}},
+						M{"labels": M{"name": "N"}},
+					}
+					pcs = append(pcs, baseCase("c14-template-names", schema, docs, tn, other, fmt.Sprint(addl)))
+				}
+			}
+		}
 		res := runCases(c, pcs)
 		for _, r := range res {
+			if r.Case.Stream == "c14-template-names" {
+				// judged through the correspondence below (the model collects exactly the undeclared keys); must compile
+				if r.RunsJ == nil && !r.Unsupported && len(r.ModelIssues) == 0 {
+					fails++
+					if fails <= 3 {
+						c.Fail("oracle", "a type named like a template identifier: the program does not generate/compile: "+r.Real.ErrMsg+r.CompileErr+r.Real.ParseErr, replayOf(r, -1, nil), false)
+					}
+				}
+				c.Eval("template-names|" + strings.Join(r.Case.Labels, ","))
+				if r.RunsJ != nil && strings.HasPrefix(r.Case.Labels[2], "map[") {
+					// typed additionalProperties: exactly the undeclared keys of `labels` are collected
+					for d, want := range [][]string{{"team", "text"}, {"text"}, {}} {
+						if d >= len(r.RunsJ) || r.RunsJ[d].Kind != "ok" {
+							continue
+						}
+						var got struct {
+							Labels struct {
+								AdditionalProperties map[string]any
+							} `json:"labels"`
+						}
+						_ = json.Unmarshal([]byte(r.RunsJ[d].Canon), &got)
+						keys := core.SortedKeys(got.Labels.AdditionalProperties)
+						if strings.Join(keys, ",") != strings.Join(want, ",") {
+							fails++
+							if fails <= 3 {
+								c.Fail("oracle", fmt.Sprintf("next to a type named %q the additional-properties map of another object holds the keys %v, not the undeclared keys %v", r.Case.Labels[0], keys, want), replayOf(r, d, nil), false)
+							}
+						}
+					}
+				}
+				continue
+			}
 			if r.Unsupported {
 				c.Count("c14", "outside-model-scope (unsupported property name)")
 				continue
